@@ -64,7 +64,7 @@ HashInv == c.m = "hash" =>
     /\ LET h == [fmt |-> nx.fmt, cus |-> nx.cus, bcount |-> nx.bcount, buckets |-> nx.buckets, hashes |-> nx.hashes,
                  stroffs |-> [i \in DOMAIN nx.names |-> nx.names[i].stroff],
                  dies |-> [i \in DOMAIN nx.names |-> FromNat(32 + i, 4)]] IN
-       \A le \in BOOLEAN : UniformNx(h) = nx /\ EncNamesUniform(h, le) = EncNames(nx, le)   \* the linear-time layout used by LookupTrace
+       UniformNx(h) = nx /\ EncNamesUniform(h, v % 2 = 1) = EncNames(nx, v % 2 = 1)   \* the linear-time layout used by LookupTrace
     /\ PrintT(<<"CASE", ToJson(Case(<<nx>>, v % 2 = 0, "hash", [wf |-> TRUE]))>>)
 
 (*-------------------------------- raw -----------------------------------*)
